@@ -161,7 +161,7 @@ static void c14_type(Context& cx)
             md.id = op + ":" + prec<T>::tn + ":" + tg.name;
             rc::detail::checkTestable(
                 [&]() {
-                    auto bits = *rc::gen::container<std::vector<uint64_t>>((size_t)(2 * n), rc::gen::arbitrary<uint64_t>());
+                    auto bits = *rc::gen::container<std::vector<uint64_t>>((size_t)(2 * n), rc::gen::resize(100, rc::gen::arbitrary<uint64_t>()));
                     const int mode = *rc::gen::resize(100, rc::gen::inRange<int>(0, 3));
                     for (int l = 0; l < n; ++l)
                     {
